@@ -39,36 +39,36 @@ CLAIMS = {
    STRUCT + 'Here: on exit of every grid operation, for every entry state, centres are midpoints of the final boundaries and boundaries/min/max/bins agree; extend is prefix preserving; re-mesh multiplies the interpolated distribution by old/new third moment and nothing else; adaptive adjustment ends at minBins/maxBins or below the maximum; reset restores the originals; *FromN moments depend only on their argument; a loaded grid is rebuilt from the saved scalars.',
    'Strict monotonicity of boundaries, exactness of the rescaled moment in floating point and minBins<=maxBins are not decided.', '4/C08'),
  'C09': C('other', 'interprocedural may-alias/purity analysis with numpy view tables, symbolic execution of the cache switch, key/argument agreement, must-pass-through',
-   STRUCT + 'Here: no query writes through an alias of its array arguments (33 parameter instances through all kawin callees), the cache can be switched off (lookup/insert executed symbolically for both flag values), lookups and inserts use the same key function and the same (x,T), supplied composition sets are refreshed and cached samples reused only at equal temperature, every driving-force method passes the removeCache reset, and batching at T[0] is guarded by a whole-array predicate.',
+   STRUCT + 'Here: no query writes through an alias of its array arguments (33 parameter instances through all kawin callees), the cache can be switched off (lookup/insert executed symbolically for both flag values), lookups and inserts use the same key function and the same (x,T), supplied composition sets are refreshed and cached samples reused only at equal temperature, every driving-force method passes the removeCache reset, batching at T[0] is taken only on the branch a whole-array equality predicate selects for a uniform array (test tabulated, no tolerance test) and the per-point results keep the input order; no mutable default argument is shared between instances.',
    'Equality of returned values across query histories (pycalphad internals) is not decided.', '4/C09'),
  'C11': C('other', 'order-type system (alphabetical vs user order) at all argsort sites, loop equivariance analysis with liveness, closure-capture rule',
    STRUCT + 'Here: every alphabetical (pycalphad) value is converted with argsort(argsort(elements[slice])) before it is returned, stored or combined with a user-ordered value, matrices on both axes; every loop over phases/coupled models writes only at the loop index, into iteration-local temporaries or through commutative reductions; no closure captures a loop variable; boundary conditions are addressed by element name.',
    'Numerical equality of paired runs is not decided.', '4/C11'),
- 'C12': C('other', 'formula extraction from five functions to sympy and exact identity checking; call-site agreement; quantity-kind typing',
-   'Decides only the growth-law/critical-radius chain: growth = (mc/R)(dG - g), g(R) = Vm(E_el + 2f*gamma/R), dG_v = dG_chem/Vm - E_el, Rcrit = 2f*gamma/dG_v and the call-site bindings are extracted and the identity growth(Rcrit) = 0 with positive slope is checked exactly (residual -E_el*Vm: known finding F18; exact for E_el = 0); binary lookup uses the same Gibbs-Thomson function; aspect ratios and radii reach the right level of the shape API; sample cache is temperature guarded.',
+ 'C12': C('other', 'formula extraction from five functions to sympy and exact identity checking; call-site agreement; quantity-kind typing; path analysis of the nucleation loop against a frozen table of exits; guard tabulation of the batched interfacial-composition query',
+   'Decides only the growth-law/critical-radius chain: growth = (mc/R)(dG - g), g(R) = Vm(E_el + 2f*gamma/R), dG_v = dG_chem/Vm - E_el, Rcrit = 2f*gamma/dG_v and the call-site bindings are extracted and the identity growth(Rcrit) = 0 with positive slope is checked exactly (residual -E_el*Vm: known finding F18; exact for E_el = 0); binary lookup uses the same Gibbs-Thomson function; aspect ratios and radii reach the right level of the shape API; sample cache is temperature guarded; a computed barrier is recorded on every path of the phase loop except the listed exit; interfacial compositions of an array are batched only for a uniform temperature and returned in input order.',
    'All clauses comparing two equilibrium calculations (solvus = zero of the driving force, monotonicity in g, sentinel, agreement of the four methods) are not decided.', '4/C12'),
  'C13': C('other', 'symbolic execution of constructor vs setter (path-wise equality), typestate of the refresh rule, evaluation-site def-use, sibling agreement',
    STRUCT + 'Here: constructor and setter of TemperatureParameters leave the same flag/parameters on every argument shape, the three setters set the isothermal flag, the accumulated temperature change is incremented before the test and (rebuild <=> reset) on every path with the current temperature, the accumulator is zeroed nowhere else without a full rebuild, every stored temperature is the schedule at the time stored in the same record (time written => temperature written), both schedule classes interpolate t/3600.',
    'Closeness of tabulated compositions to an independent evaluation is not decided.', '4/C13'),
- 'C14': C('other', 'cache-freshness by symbolic execution of all methods (caches discovered from lazy-property idiom), exact sympy identities on extracted formulas, mask structure',
+ 'C14': C('other', 'cache-freshness by symbolic execution of all methods (caches discovered from lazy-property idiom), exact sympy identities on extracted formulas incl. sibling agreement of the barrier at a clamped radius, mask structure',
    STRUCT + 'Here: every lazily cached factor is None after any write of gamma/gbEnergy/site type; area - 2k*removed - 3*volume == 0, the k=0 limits and the reduction of Rcrit/Gcrit to the classical values are exact identities of the extracted formulas; outputs are zero-initialised and written only under the positive-driving-force / non-zero masks; occupied sites are summed over all phases of the same site type and returned through max(.,0).',
-   'Finiteness, monotonicity in dG and k and the incubation factor range are not decided.', '4/C14'),
- 'C15': C('other', 'alias/purity analysis, exact sympy identities and one-sided limits on extracted closed forms, dtype rule, derived-state rule, mode-flag must-assign analysis (T-MODEFLAG)',
-   STRUCT + 'Here: no factor function writes into its aspect-ratio/radius argument; unit volume and axis ratio of the semi-axes, the sphere limits of needle/plate factors and continuity at aspect ratio 1 (value used below 1 == limit of the shape formula) are exact; result buffers are float; ShapeFactor keeps no value derived from a previous description.',
+   'Finiteness, monotonicity in dG and k and the incubation factor range are not decided. F25 (boundary-site barrier negative at a radius raised to the minimum radius) is a recorded known finding: its one-line repair changes a value pinned by an existing test.', '4/C14'),
+ 'C15': C('other', 'alias/purity analysis, exact sympy identities and one-sided limits on extracted closed forms, dtype rule, derived-state rule, mode-flag must-assign analysis (T-MODEFLAG), path analysis of the bisection loop',
+   STRUCT + 'Here: no factor function writes into its aspect-ratio/radius argument; unit volume and axis ratio of the semi-axes, the sphere limits of needle/plate factors and continuity at aspect ratio 1 (value used below 1 == limit of the shape formula) are exact; result buffers are float; ShapeFactor keeps no value derived from a previous description; the bisection for the critical radius starts on the whole interval [RcritSphere, Rmax], moves exactly one end to the midpoint per iteration and recomputes the midpoint.',
    'Agreement with quadrature of area/capacitance integrals, monotonicity and the bisection tolerance are not decided.', '4/C15'),
- 'C16': C('other', 'derived-state freshness by symbolic execution, literal evaluation of quadrature tables with exact trigonometry, exact replay of modulus conversions, non-commutative operator normal forms, tensor-index bookkeeping of the rotations, shared class-level state rule (T-SHARED)',
-   STRUCT + 'Here: the rotated tensors are recomputed after every write of a rotation/stiffness (order independence); quadrature weights sum to 1 with the orbit multiplicities, point counts are the documented ones and the closed A-orbits are the octahedral orbits, the C-orbit generator/table contract holds (known finding F21: it does not); all 15 modulus conversions reproduce (E,nu,G); Voigt maps are inverse tables; fourth-rank and 6x6 energy routines are the same operator expression.',
-   'Positivity, scaling laws, rotation invariance and closed forms are not decided. F21 (Lebedev orbits) is a recorded known finding: its repair changes values pinned by 3 existing tests.', '4/C16'),
+ 'C16': C('other', 'derived-state freshness by symbolic execution, literal evaluation of quadrature tables with exact trigonometry, exact replay of modulus conversions, non-commutative operator normal forms, tensor-index bookkeeping of the rotations, degree-of-homogeneity inference for the Eshelby integral, shared class-level state rule (T-SHARED)',
+   STRUCT + 'Here: the rotated tensors are recomputed after every write of a rotation/stiffness (order independence); quadrature weights sum to 1 with the orbit multiplicities, point counts are the documented ones and the closed A-orbits are the octahedral orbits, the C-orbit generator/table contract holds (known finding F21: it does not); all 15 modulus conversions reproduce (E,nu,G); Voigt maps are inverse tables; fourth-rank and 6x6 energy routines are the same operator expression; Dijkl is homogeneous of degree 0 in the radii (every sum adds terms of equal degree).',
+   'Positivity, rotation invariance and closed forms are not decided (of the scaling laws only the degree of homogeneity of the Eshelby integral is). F21 (Lebedev orbits) is a recorded known finding: its repair changes values pinned by 3 existing tests.', '4/C16'),
  'C17': C('other', 'taint rule for phase addressing, symmetric-axis rule, dispatch tables decided by symbolic execution, must-pass-through of post-processing on the loop-body CFG, formula shape with the phase sum as opaque linear operator, purity',
    STRUCT + 'Here: rows of the per-stable-phase arrays are never selected by a position in the database phase list and the stable phase names travel with the arrays; averaging rules consume the phase axis only by reductions; keyword/id/function registries are total and map to namesakes; Wiener/labyrinth/Hashin-Shtrikman have the stated form with the sum taken before the non-linear map; averaging rules do not write into the cached arrays.',
    'Ordering of the bounds and their values are not decided.', '4/C17'),
  'C18': C('other', 'sibling sanitising rule, symbolic execution of history growth, must-precede and must-pass-through dataflow on the CFG (solve before every normal exit), formula/prefactor agreement, purity',
    STRUCT + 'Here: weak/strong/Orowan arrays pass the same negative|non-finite mask; each strength history grows by exactly one entry per host step on every path and the host updates coupled models once per step after its record; grain growth is solved over exactly the host step; strength = M*min(weak,strong,Orowan) without rescaling its arguments; Zener drag carries the growth-law prefactor and freezes the band.',
    'Positivity/monotonicity of the individual formulas and grain-volume conservation are not decided.', '4/C18'),
- 'C19': C('other', 'attribute-protocol check against the class hierarchy, symbolic execution of the latch, all-paths polling rule, table rules, solver typestate',
-   'The stopping protocol is shape and is decided on all paths: every attribute a condition reads exists on the host, a met condition is never re-evaluated and its time is written with the transition only (exact interpolation formula), every registered condition is polled on every step before the or/and fold, each condition reads the history of its name with the selection it was given, the solver ends on the returned flag, the TTP calculator resets before every run.',
+ 'C19': C('other', 'attribute-protocol check against the class hierarchy, symbolic execution of the latch, product of the or/and fold (transfer function tabulated over a finite domain) with the specification automaton, class-specialised method views, table rules, solver typestate',
+   'The stopping protocol is shape and is decided on all paths: every attribute a condition reads exists on the host, a met condition is never re-evaluated and its time is written with the transition only (exact interpolation formula), every registered condition is polled on every step and the stop flag equals (any or-condition met) or (some and-condition and all of them met) for registries of every length (reachable states of the fold explored in product with the specification automaton), each condition reads the history of its name with the selection it was given, the solver ends on the returned flag, the TTP calculator resets before every run.',
    'That the interpolated crossing time lies inside the step is numeric and not decided.', '4/C19'),
- 'C20': C('other', 'delegation/forwarding agreement, save/load key-table agreement, symbolic execution of toDict under present/absent recordings, must-analysis of key presence on the CFG, JSON/ndarray type agreement of the refit path, argument-normalisation rule of the getters, protocol check',
+ 'C20': C('other', 'delegation/forwarding agreement, save/load key-table agreement per class (super chain and class-level tables resolved), row-preservation dataflow from the stored training data to the kernel, symbolic execution of toDict under present/absent recordings, must-analysis of key presence on the CFG, JSON/ndarray type agreement of the refit path, argument-normalisation rule of the getters, protocol check',
    STRUCT + 'Here: every untrained surrogate getter returns its namesake on the thermodynamics object with all its own parameters, internal delegations forward the phase selection; save and load agree on their key tables for precipitation, diffusion, surrogate and strength models; recordings are saved exactly when they exist and None is never saved; every thermodynamics method the precipitation model calls exists on all four thermodynamics/surrogate classes.',
    'Exact reproduction of array contents and interpolation at training points are not decided.', '4/C20'),
 }
